@@ -42,6 +42,24 @@ func register(id, explain string, assume []string, rules ...func(*Ctx)) {
 	registry[id] = &propertyCheck{id: id, explain: explain, assume: assume, rules: rules}
 }
 
+// extra lists rules under further properties after all init-time registrations (rules that were added later and are
+// necessary conditions of several statements).
+var extra = map[string][]func(*Ctx){}
+
+func alsoUnder(rule func(*Ctx), ids ...string) {
+	for _, id := range ids {
+		extra[id] = append(extra[id], rule)
+	}
+}
+
+func lateRegister() {
+	for id, rs := range extra {
+		if pc := registry[id]; pc != nil {
+			pc.rules = append(pc.rules, rs...)
+		}
+	}
+}
+
 func main() {
 	var (
 		prop   = flag.String("property", "", "property id (C01..C20) or 'all'")
@@ -107,6 +125,7 @@ func main() {
 		dumpPathSum(&Ctx{P: P, R: NewRun("dump", *tier, 0), Tier: *tier}, *dump, *quiet)
 		return
 	}
+	lateRegister()
 	pc := registry[*prop]
 	if *prop == "ALL" {
 		// every distinct rule once (gap measurement on scratch variants; never a registered check)
